@@ -106,9 +106,43 @@ def run(chk):
     chk.count("interval_goals", ngoals)
 
     # ---- (c) the property on the implementation: 2D integrals vs direct integration, tiling, symmetry ---
-    n_search = 40 if (thorough or chk.disagreements or chk.broken) else 8
+    # ---- (c0) continuity at low temperature: at T = 1e-3 almost the whole integrand of eta_function runs through
+    # its overflow-guard branch (exp(-w/T) < eps); eta, the triangle and a square must agree with T = 0 up to O(T^2)
+    for it in range(12 if thorough else 4):
+        zeta = rng.choice([1.0, 2.0, 3.0])
+        wc = rng.choice([1.0, 3.0])
+        ctype = rng.choice(["hard", "exponential", "gaussian"])
+        alpha = rng.choice([0.05, 0.4])
+        Tlow = rng.choice([1e-3, 4e-3])
+        kind = rng.choice(["power", "custom-sd"])
+        mk = (lambda T: oqupy.PowerLawSD(alpha=alpha, zeta=zeta, cutoff=wc, cutoff_type=ctype, temperature=T)) if kind == "power" else \
+             (lambda T: oqupy.CustomSD(lambda w: 2.0 * alpha * w ** zeta * wc ** (1 - zeta), cutoff=wc, cutoff_type=ctype, temperature=T))
+        info = {"kind": "low-temperature-" + kind, "zeta": zeta, "T": Tlow, "cutoff_type": ctype}
+        chk.search_cases += 1
+        chk.count("search_low_temperature")
+        chk.case(info, ("lowT", kind, zeta, Tlow, ctype, wc, alpha))
+        try:
+            c0, c1 = mk(0.0), mk(Tlow)
+            dt = rng.choice([0.05, 0.2])
+            tau = rng.choice([0.1, 0.7, 2.0])
+            pairs = [("eta_function(%g)" % tau, complex(c0.eta_function(tau)), complex(c1.eta_function(tau))),
+                     ("upper-triangle", complex(c0.correlation_2d_integral(dt, 0.0, shape="upper-triangle")), complex(c1.correlation_2d_integral(dt, 0.0, shape="upper-triangle"))),
+                     ("square", complex(c0.correlation_2d_integral(dt, 2 * dt, shape="square")), complex(c1.correlation_2d_integral(dt, 2 * dt, shape="square")))]
+            for name, a0, a1 in pairs:
+                if abs(a0 - a1) > 1e-3 * abs(a0) + 1e-12:
+                    chk.fail("low-temperature-discontinuity:" + name.split("(")[0],
+                             f"{type(c1).__name__}: {name} at T={Tlow} is {a1:.8g}, at T=0 it is {a0:.8g} (the thermal correction is O(T^2))", dict(info, what=name, dt=dt))
+        except Exception as ex:
+            chk.fail("correlations-raise", f"raises {ex!r}", info)
+
+    n_search = 40 if (thorough or chk.disagreements or chk.broken) else 10
+    strata = [(0.05, "upper-triangle", True), (0.0, "upper-triangle", True), (0.5, "upper-triangle", False), (0.05, "square", False),
+              (5.0, "rectangle", False), (0.0, "square", False)]
     for it in range(n_search):
         T = rng.choice([0.0, 0.0, 0.05, 0.5, 5.0, 50.0])
+        forced = strata[it] if it < len(strata) else None
+        if forced:
+            T = forced[0]
         zeta = rng.choice([0.5, 1.0, 2.0, 3.0, 4.0])
         wc = rng.choice([1.0, 3.0])
         ctype = rng.choice(["hard", "exponential", "gaussian"])
@@ -130,6 +164,9 @@ def run(chk):
         try:
             shape = rng.choice(["square", "upper-triangle", "rectangle", "upper-triangle"])
             t1 = 0.0 if (shape == "upper-triangle" and rng.random() < 0.5) else rng.randint(1, 4) * dt
+            if forced:
+                shape = forced[1]
+                t1 = 0.0 if forced[2] else rng.randint(1, 4) * dt
             t2 = t1 + rng.randint(1, 3) * dt if shape == "rectangle" else None
             got = complex(corr.correlation_2d_integral(dt, t1, t2, shape=shape, epsrel=eps))
             hi = {"square": lambda x: dt, "rectangle": lambda x: dt, "upper-triangle": lambda x: x - t1}[shape]
